@@ -310,12 +310,13 @@ impl PseudoFs {
         let inode = inodes
             .get(&parent)
             .ok_or_else(|| Error::from_raw_os_error(libc::ENOENT))?;
-        let mut next = offset + 1;
         let children = inode.children.load();
 
         if offset >= children.len() as u64 {
             return Ok(());
         }
+        // `offset` comes from the client: only add to it once it is known to be an index.
+        let mut next = offset + 1;
 
         for child in children[offset as usize..].iter() {
             match add_entry(DirEntry {
